@@ -35,7 +35,7 @@ type TOp struct {
 	K string `json:"k"`           // reg unreg unreg_nil unreg_odd tracer start end flush shutdown
 	X int    `json:"x,omitempty"` // reg/unreg: pool index; tracer: slot; start/end: span id
 	T int    `json:"t,omitempty"` // start: tracer slot of the goroutine, -1 = the tracer obtained at construction
-	C int    `json:"c,omitempty"` // flush/shutdown: 0 live context, -1 already cancelled
+	C int    `json:"c,omitempty"` // flush/shutdown/start: context of the call, 0 live, -1 already cancelled, -2 deadline already expired
 	P int    `json:"p,omitempty"` // perturbation before the op (concurrent programs)
 }
 
@@ -58,6 +58,17 @@ type TProg struct {
 	// exporter mutex while it calls ExportSpans), see the package comment.
 	SspX int `json:"ssp_x,omitempty"`
 	BspX int `json:"bsp_x,omitempty"`
+	// Re-entrant PROCESSOR: the Shutdown of rec2 calls back into the provider
+	// that is shutting it down (with the context it was given): bit 0
+	// tp.Shutdown, bit 1 tp.Tracer("re") + Start/End of a span "x", bit 2
+	// tp.ForceFlush, bit 3 tp.UnregisterSpanProcessor(itself), bit 4
+	// tp.RegisterSpanProcessor(a fresh recording processor). Such a program
+	// never unregisters rec2, so that its Shutdown is only ever called by
+	// TracerProvider.Shutdown (an UnregisterSpanProcessor holds the provider
+	// mutex while it shuts the processor down with the provider still up; a
+	// call back into the provider from there blocks on the unchanged tree and
+	// is not generated, see the package comment).
+	RecX int `json:"rec_x,omitempty"`
 }
 
 // ---------------------------------------------------------------------
@@ -77,6 +88,7 @@ type recProc struct {
 	clock *vk.Clock
 	fail  bool
 	slow  int
+	re    func(context.Context) // re-entrant processor: called inside Shutdown (set before the provider is used)
 	mu    sync.Mutex
 	evs   []tev
 }
@@ -109,9 +121,12 @@ func (p *recProc) ForceFlush(context.Context) error {
 	return nil
 }
 
-func (p *recProc) Shutdown(context.Context) error {
+func (p *recProc) Shutdown(ctx context.Context) error {
 	i := p.add('d', -1)
 	vk.Perturb(p.slow)
+	if p.re != nil {
+		p.re(ctx)
+	}
 	p.mu.Lock()
 	p.evs[i].Exit = p.clock.Tick()
 	p.mu.Unlock()
@@ -210,6 +225,7 @@ type thist struct {
 	p     TProg
 	recs  [4]*recProc
 	odd   *recProc
+	late  *recProc            // registered by the re-entrant processor from inside its Shutdown (RecX bit 4)
 	exps  map[int]*recSpanExp // pSSP, pBSP
 	pre   []callRec
 	gs    [][]callRec
@@ -250,6 +266,9 @@ func validT(p TProg) bool {
 			if op.K == "reg" {
 				regs[op.X]++
 			}
+			if op.K == "unreg" && op.X == pRec2 && p.RecX != 0 {
+				ok = false // a re-entrant processor is shut down by the provider's Shutdown only
+			}
 		case "tracer":
 			if op.X < 0 || op.X > 3 {
 				ok = false
@@ -288,7 +307,7 @@ func validT(p TProg) bool {
 			ok = false
 		}
 	}
-	return ok && p.Pre >= 0 && p.Pre <= 64 && len(p.Gs) <= 8 && p.SspX >= 0 && p.SspX <= 1 && p.BspX >= 0 && p.BspX <= 3
+	return ok && p.Pre >= 0 && p.Pre <= 64 && len(p.Gs) <= 8 && p.SspX >= 0 && p.SspX <= 1 && p.BspX >= 0 && p.BspX <= 3 && p.RecX >= 0 && p.RecX <= 31
 }
 
 func execTrace(p TProg) (*thist, func()) {
@@ -299,6 +318,7 @@ func execTrace(p TProg) (*thist, func()) {
 		h.recs[i] = &recProc{idx: i, clock: clock, fail: i == pRecErr, slow: p.Slow}
 	}
 	h.odd = &recProc{idx: -1, clock: clock}
+	h.late = &recProc{idx: -2, clock: clock}
 	odd := oddProc{tags: []string{"x"}, r: h.odd}
 
 	used := map[int]bool{}
@@ -351,6 +371,27 @@ func execTrace(p TProg) (*thist, func()) {
 	if e := h.exps[pBSP]; e != nil && p.BspX&3 != 0 {
 		e.tracer, e.reShutdown, e.reExport = tp.Tracer("exporter.batch"), p.BspX&1 != 0, p.BspX&2 != 0
 	}
+	if p.RecX != 0 {
+		self := h.recs[pRec2]
+		self.re = func(ctx context.Context) {
+			if p.RecX&1 != 0 {
+				_ = tp.Shutdown(ctx)
+			}
+			if p.RecX&2 != 0 {
+				_, sp := tp.Tracer("re").Start(ctx, "x")
+				sp.End()
+			}
+			if p.RecX&4 != 0 {
+				_ = tp.ForceFlush(ctx)
+			}
+			if p.RecX&8 != 0 {
+				tp.UnregisterSpanProcessor(self)
+			}
+			if p.RecX&16 != 0 {
+				tp.RegisterSpanProcessor(h.late)
+			}
+		}
+	}
 	spans := make([]trace.Span, maxSpan+1)
 	tracerNames := []string{"a", "b", "", "a"}
 
@@ -383,7 +424,7 @@ func execTrace(p TProg) (*thist, func()) {
 		case "tracer":
 			slots[op.X] = handle{tp.Tracer(tracerNames[op.X]), rec}
 		case "start":
-			_, sp = tr.Start(context.Background(), fmt.Sprintf("s%d", op.X))
+			_, sp = tr.Start(ctx, fmt.Sprintf("s%d", op.X))
 			rec.Recording = sp.IsRecording()
 			rec.Handle = hc
 		case "end":
@@ -654,6 +695,7 @@ func oracleTraceSeq(h *thist) ([]vk.Violation, map[string]bool) {
 			switch state {
 			case stUp:
 				st.live = c.Recording
+				cl["start_with_done_context"] = cl["start_with_done_context"] || c.C != 0
 				for _, m := range members {
 					if m < 4 {
 						want[m] = "s"
@@ -889,10 +931,11 @@ func genRawTOp(conc bool) *rapid.Generator[TOp] {
 			op.X = rapid.IntRange(0, 3).Draw(t, "slot")
 		case "start":
 			op.T = rapid.IntRange(-1, 3).Draw(t, "slot")
+			op.C = rapid.SampledFrom([]int{0, 0, 0, 0, -1, -2}).Draw(t, "ctx")
 		case "end":
 			op.X = rapid.IntRange(0, 15).Draw(t, "which")
 		case "flush", "shutdown":
-			op.C = rapid.SampledFrom([]int{0, 0, -1}).Draw(t, "ctx")
+			op.C = rapid.SampledFrom([]int{0, 0, 0, 0, -1, -1, -2}).Draw(t, "ctx")
 		}
 		if conc {
 			op.P = rapid.IntRange(0, 3).Draw(t, "p")
@@ -929,6 +972,11 @@ func normaliseT(p *TProg) {
 					op.K = "unreg"
 				}
 				ever[op.X] = true
+			}
+			if op.K == "unreg" && op.X == pRec2 && p.RecX != 0 {
+				op.X = pRec1 // a re-entrant processor is never unregistered
+			}
+			switch op.K {
 			case "end":
 				if len(mine) == 0 {
 					op.K, op.T = "start", -1
@@ -954,10 +1002,21 @@ func normaliseT(p *TProg) {
 	if !ever[pBSP] {
 		p.BspX = 0
 	}
+	if !ever[pRec2] {
+		p.RecX = 0
+	}
 }
 
 // reentrantClasses labels what the re-entrant exporters actually did.
 func reentrantClasses(h *thist, add func(string)) {
+	if h.p.RecX != 0 && shutdownsBefore(h.recs[pRec2].events(), never) > 0 {
+		add("reentrant_processor_shutdown_calls_back_into_provider")
+		for b, n := range []string{"Shutdown", "Tracer", "ForceFlush", "Unregister", "Register"} {
+			if h.p.RecX&(1<<b) != 0 {
+				add("reentrant_processor:" + n)
+			}
+		}
+	}
 	if e := h.exps[pSSP]; e != nil && e.reShutdown {
 		if _, sd := e.snapshot(); len(sd) > 0 {
 			add("reentrant_exporter_shutdown_behind_simple")
@@ -993,6 +1052,9 @@ func genChunked[O any](t *rapid.T, g *rapid.Generator[O], maxChunks int) []O {
 func genReentrant(t *rapid.T, p *TProg) {
 	p.SspX = rapid.SampledFrom([]int{0, 0, 1}).Draw(t, "ssp_x")
 	p.BspX = rapid.SampledFrom([]int{0, 0, 1, 2, 3, 3}).Draw(t, "bsp_x")
+	if rapid.IntRange(0, 2).Draw(t, "rec_reentrant") == 0 {
+		p.RecX = rapid.IntRange(1, 31).Draw(t, "rec_x")
+	}
 }
 
 func genTraceSeq(t *rapid.T) TProg {
@@ -1089,7 +1151,7 @@ func dedup(xs []string) []string {
 func TestTraceMembership(t *testing.T) {
 	vk.Run(t, vk.Spec[TProg]{
 		Property: "C15", Check: "trace_membership",
-		Rule: "generated op lists (1-80 ops: Register / Unregister of members, non-members, nil and a never-registered processor of non-comparable type / Tracer / Start / End / ForceFlush / Shutdown with live or already-cancelled contexts, repeated) on a TracerProvider built with 0-4 of a pool of 8 processors (4 recording ones, one of them failing, simple and batch processors around a recording exporter and around nil; the exporters are optionally re-entrant: their Shutdown, for the batch processor also their ExportSpans, starts and ends a span through the same provider), each processor registered at most once; exact model of the ordered membership; " +
+		Rule: "generated op lists (1-80 ops: Register / Unregister of members, non-members, nil and a never-registered processor of non-comparable type / Tracer / Start / End / ForceFlush / Shutdown with live or already-cancelled contexts, repeated) on a TracerProvider built with 0-4 of a pool of 8 processors (4 recording ones, one of them failing, simple and batch processors around a recording exporter and around nil; the exporters are optionally re-entrant: their Shutdown, for the batch processor also their ExportSpans, starts and ends a span through the same provider; the Shutdown of rec2 optionally calls back into the provider: Shutdown / Tracer+Start+End / ForceFlush / Unregister(itself) / Register(fresh)), contexts live, cancelled or past their deadline (also for Start), each processor registered at most once; exact model of the ordered membership; " +
 			"non-trivial = the program unregisters a non-member or a middle member while the provider is up and makes a Start/End call after a Shutdown with a live context returned nil; distinct = distinct case encodings",
 		Quick: 6000, Thorough: 80000,
 		Gen: genTraceSeq, Run: runTraceSeq, Known: knownTrace,
